@@ -521,7 +521,7 @@ class Interpolation(object):
             # Check limits against interpolation table. Reset if necessary
             if xl < self._x[0]:
                 xl = xmin
-            if xh < self._x[-1]:
+            if xh > self._x[-1]:
                 xh = xmax
             yl = self.__call__(xl)
             yh = self.__call__(xh)
